@@ -51,6 +51,50 @@ def extract(prop):
     return problems
 
 
+COMB_K = {'all': 5, 'all_none': 5, 'any': 2, 'any_firstfail': 2, 'join': 2, 'all_static': 5}  # sites of Extracted/AllocSites
+
+
+def comb_check(res, tier):
+    """C20 T3 for the combinators and Wait: allocations counted on the implementation for n = 1 … 512 inputs.
+    A violation needs no model: the property itself says `constant, independent of n` and `none to wait`."""
+    import re
+    import subprocess
+    kinds = ['plain'] + (['plain_asan'] if tier != 'quick' else [])
+    table = {}
+    bad = []
+    for kind in kinds:
+        r = subprocess.run([pipe.harness(kind), '--comb'], capture_output=True, text=True)
+        if r.returncode != 0:
+            raise C.BuildError('pipe --comb exited %d: %s' % (r.returncode, r.stderr[-800:]))
+        for line in r.stdout.split('\n'):
+            m = re.match(r'comb (\w+) n=(\d+) call=(\d+) complete=(\d+) ready=(\d)', line)
+            if m:
+                name, n, a, b, ready = m.group(1), int(m.group(2)), int(m.group(3)), int(m.group(4)), m.group(5)
+                table.setdefault(name, {})[n] = a + b
+                if a + b > COMB_K[name]:
+                    bad.append('%s of %d inputs allocated %d blocks, more than its %d allocation sites' % (name, n, a + b, COMB_K[name]))
+                if ready != '1':
+                    bad.append('%s of %d inputs not ready after all inputs completed' % (name, n))
+            m = re.match(r'wait n=(\d+) waitfor_unready=(\d+)\((\d)\) wait_ready\+waitfor\+get=(\d+)\((\d)\)', line)
+            if m:
+                n, a, r0, b, r1 = int(m.group(1)), int(m.group(2)), m.group(3), int(m.group(4)), m.group(5)
+                table.setdefault('wait', {})[n] = a + b
+                if a or b:
+                    bad.append('Wait/WaitFor/Get on %d futures allocated %d + %d blocks' % (n, a, b))
+                if r0 != '0' or r1 != '1':
+                    bad.append('WaitFor on %d futures returned %s before / %s after completion' % (n, r0, r1))
+    for name, row in table.items():
+        vals = {v for n, v in row.items() if n >= 2}
+        if len(vals) > 1:
+            bad.append('%s: allocations depend on the number of inputs: %s' % (name, sorted(row.items())))
+    if not table:
+        bad.append('pipe --comb printed nothing')
+    res.coverage['combinator_allocations'] = {k: sorted(v.items()) for k, v in table.items()}
+    for b in bad[:3]:
+        res.violation('pipe --comb\n# ' + b, b, name='C20_%s_comb.txt' % tier)
+    return bad
+
+
 def run(res, prop, tier):
     res.assumptions += [
         'single-threaded programs: the property quantifies over programs / inputs / fault (rejection) positions, not schedules; '
@@ -64,7 +108,9 @@ def run(res, prop, tier):
     ok, broken = C.proof_stage(res, prop)
     broken = xproblems + broken
     nq, nt = SIZES[prop]
-    prop_fail, corr_fail = pipe.check(res, prop, tier, nq, nt, twins=(prop == 'C12'))
+    prop_fail, corr_fail = pipe.check(res, prop, tier, nq, nt, twins=(prop == 'C12'), exhaustive_steps=2 if prop == 'C02' else 1)
+    if prop == 'C20':
+        prop_fail = list(prop_fail) + comb_check(res, tier)
     if broken and not prop_fail and not corr_fail:
         res.violation('\n'.join(broken), 'proof obligations of %s no longer check: %s' % (prop, broken[0]), no_input=True,
                       name='%s_%s_obligations.txt' % (prop, tier))
